@@ -79,6 +79,11 @@ static void debugger (void *a) {
 	char buf[160];
 	for (k = 0; k < 8; k++) {
 		int full = vrt_rand (4) != 0;
+		/* VRT_DEBUGGER=2: every third call (on average) is nsync_mu_debugger, the non-blocking variant that may walk
+		   the queue without the spinlock (it prints into nsync's static buffer); VRT_DEBUGGER=1 is unchanged */
+		int unsafe = vrt_opt ("DEBUGGER", 0) == 2 && vrt_rand (3) == 0;
+		vrt_note ("dbgcall %d %d", vrt_self (), unsafe ? 2 : full);   /* for replay/mudbg_replay.ml: which entry point */
+		if (unsafe) { nsync_mu_debugger (&mu); vrt_count ("debug_call"); continue; }
 		vrt_observer_begin (buf, sizeof (buf));     /* C16: from here to _end this thread may write (plainly) only into buf */
 		if (full) nsync_mu_debug_state_and_waiters (&mu, buf, (int) sizeof (buf));
 		else nsync_mu_debug_state (&mu, buf, (int) sizeof (buf));
